@@ -86,6 +86,22 @@ def run(rep, tier, replay):
     rruns = campaign.parallel(go, rcases, par=4)
     bad = sched.judge(rep, rruns, "C13")
     sched.report_runs(rep, "C13", exe, bad, "rss")
+    # the Start events of these (otherwise unvalidated, very long) runs still have to pass the specification's bounds on
+    # slot totals and buffer sizes (TStart of TraceExpand / TraceCompress): the runs use the program's own defaults
+    for spec, kind in (("TraceExpand", "expand"), ("TraceCompress", "compress")):
+        starts = []
+        for t in rruns:
+            if t.case.kind == kind and t.trace and os.path.exists(t.trace):
+                starts += [l.strip() for l in open(t.trace) if '"e":"Start"' in l][:1]
+        if starts:
+            p = os.path.join(vlib.subdir("c13starts"), kind + ".ndjson")
+            with open(p, "w") as f:
+                f.write("\n".join(starts) + "\n")
+            v = vlib.validate_trace(spec, p, tag="c13st_" + kind)
+            rep.add("start_events_validated", len(starts))
+            if not v.accepted:
+                rep.violation("default configuration outside the specification's memory bounds: %s" % v.reason,
+                              dict(kind="trace", cls="start-bounds", spec=spec, reason=v.reason, events=starts[:4]))
     by = {}
     for t in rruns:
         t.rss = rss_of(t)
